@@ -7,9 +7,9 @@ D=/verif/seeded/$ID; mkdir -p $D
 cp $WT/mutant_$N.diff $D/patch.diff; cp $WT/demo_$N.py $D/demo.py
 cd $WT && git checkout -q -- . && git apply $D/patch.diff || { echo "patch does not apply"; exit 2; }
 PYTHONPATH=$WT timeout 900 /venv/bin/python -m pytest -q -p no:cacheprovider --timeout=900 2>&1 | tail -1 > $D/tests_with_change.txt
-PYTHONPATH=$WT timeout 120 /venv/bin/python $D/demo.py > $D/demo_with_change.txt 2>&1; echo "exit=$?" >> $D/demo_with_change.txt
+PYTHONPATH=$WT timeout 120 /venv/bin/python $WT/demo_$N.py > $D/demo_with_change.txt 2>&1; echo "exit=$?" >> $D/demo_with_change.txt
 git checkout -q -- .
-PYTHONPATH=$WT timeout 120 /venv/bin/python $D/demo.py > $D/demo_unchanged.txt 2>&1; echo "exit=$?" >> $D/demo_unchanged.txt
+PYTHONPATH=$WT timeout 120 /venv/bin/python $WT/demo_$N.py > $D/demo_unchanged.txt 2>&1; echo "exit=$?" >> $D/demo_unchanged.txt
 echo "tests: $(cat $D/tests_with_change.txt)  demo with change: $(tail -1 $D/demo_with_change.txt)  unchanged: $(tail -1 $D/demo_unchanged.txt)"
 cd /verif
 [ -z "$(git -C /repo status --porcelain)" ] || { echo "/repo not clean"; exit 2; }
